@@ -330,3 +330,62 @@ def role_local(body, name, ty=None, calls=None, fields=None, consts=None, throug
     if out:
         return out
     return named_local(body, name)
+
+
+def complete_removal_scan(R, rule, body, key_field, what):
+    """'drop every element whose <key_field> matches' - decided for the shapes the repository uses, undecided (AnchorLost) otherwise:
+    (A) retain / retain_mut with a predicate that reads key_field; (B) search-and-remove loops without a running index (position() then
+    remove / swap_remove, search restarted each time); (C) an index loop with remove(i) / swap_remove(i): the index must not advance on
+    the iteration that removed - the element that moved into slot i would be skipped."""
+    F = R.facts
+    import prims
+    bodies = [body] + list(F.nested(body.fn))
+    reads_key = any(prims.field_read_locals(b, key_field) or any(isinstance(x, str) and x == '.' + key_field for i, j, st in b.stmts() for x in (st[1].get('pl') or [])[1:]) for b in bodies)
+    retains = [t for t in body.calls() if any(n.endswith(('::retain', '::retain_mut')) for n in t.callee_names())]
+    removes = [t for t in body.calls() if any(n.endswith(('::remove', '::swap_remove')) for n in t.callee_names())]
+    if retains:
+        R.expect(rule, body.fn, what, reads_key, f'retain(..) with a predicate on {key_field.split(":")[0]}', f'retain(..) whose predicate does not read {key_field}', body.where(retains[0].bb))
+        return
+    if not removes:
+        raise AnchorLost(f'{body.fn}: neither retain nor remove/swap_remove - removal scan of an unknown shape')
+    bad = []
+    for t in removes:
+        if len(t.d['a']) < 2:
+            continue
+        idx = op_place(t.d['a'][1])
+        if idx is None:
+            continue
+        # the variable(s) the index operand is a copy of
+        roots, work = set(), [idx[0]]
+        while work:
+            l = work.pop()
+            if l in roots:
+                continue
+            roots.add(l)
+            for (bb, i, kind, payload) in body.defs.get(l, ()):
+                if kind == 'assign' and payload[1].get('op') == 'use' and op_place(payload[1]['a'][0]):
+                    work.append(op_place(payload[1]['a'][0])[0])
+        incs = set()
+        for i, j, st in body.stmts():
+            rv = st[1]
+            if rv.get('op') == 'bin' and rv.get('b') in ('Add', 'AddWithOverflow') and op_place(rv['a'][0]) and op_place(rv['a'][0])[0] in roots and not body.is_cleanup(i):
+                incs.add(i)
+        if not incs:
+            continue    # shape B: no running index
+        cmps = {c[0] for c in prims.compare_sites(body, ops=('Lt', 'Le', 'Gt', 'Ge', 'Ne', 'Eq'))
+                if (op_place(c[3]) and op_place(c[3])[0] in roots) or (op_place(c[4]) and op_place(c[4])[0] in roots)}
+        # also comparisons on a copy of the index
+        for c in prims.compare_sites(body, ops=('Lt', 'Le', 'Gt', 'Ge', 'Ne', 'Eq')):
+            for o in (c[3], c[4]):
+                pl = op_place(o)
+                if pl:
+                    for (bb, i, kind, payload) in body.defs.get(pl[0], ()):
+                        if kind == 'assign' and payload[1].get('op') == 'use' and op_place(payload[1]['a'][0]) and op_place(payload[1]['a'][0])[0] in roots:
+                            cmps.add(c[0])
+        r = prims.reach(body, body.succ[t.bb], cut_blocks=cmps)
+        hit = sorted(incs & r)
+        if hit:
+            bad.append((t.bb, hit[0]))
+    R.expect(rule, body.fn, what, reads_key and not bad, f'{len(removes)} remove site(s); the index does not advance on an iteration that removed (or there is no running index)',
+             (f'after the removal at {body.where(bad[0][0])} the index is advanced at {body.where(bad[0][1])} before it is compared again: the element that moved into the freed slot is '
+              'skipped, every second one of a run of matching elements survives') if bad else f'the scan does not read {key_field}', body.where(removes[0].bb))
